@@ -116,9 +116,11 @@ def orbit_events(g, n, rng, quick):
             lambda: rm.lc_orbit_finder(gsh.copy(), comp_depth=depth, orbit_size_thresh=size, with_iso=with_iso,
                                        rand=rand, rep_allowed=rep), distinct=False)
     if nx.is_connected(g) and n >= 2:
-        rec("depth_first_orbit:shuffled-insertion", lambda: rm.depth_first_orbit(gsh.copy()), distinct=False)
+        rec("depth_first_orbit:shuffled-insertion", lambda: rm.depth_first_orbit(gsh.copy()), distinct=True)
     if nx.is_connected(g) and n >= 2:
-        rec("depth_first_orbit", lambda: rm.depth_first_orbit(g.copy()), distinct=False)
+        # the depth-first explorer lists the orbit it walked (one entry per graph it reached): distinct graphs. It is
+        # called on many different graphs in this one process, like the alternate-target workflow does.
+        rec("depth_first_orbit", lambda: rm.depth_first_orbit(g.copy()), distinct=True)
     degs = sorted(d for _, d in g.degree())
     if n >= 3 and g.number_of_edges() == n - 1 and max(degs) == 2 and nx.is_connected(g) and list(g.edges()) == [(i, i + 1) for i in range(n - 1)]:
         rec("linear_partial_orbit", lambda: rm.linear_partial_orbit(g.copy()), distinct=False)
